@@ -1042,11 +1042,48 @@ def r_derived_clone(ctx, db, est):
             a = init_leaves(p)
             b = leaf_map(p.ret)
             bad = exact_state_equal(p, b, a)
-            ctx.ob("R-IDENT", "clone-exact", cp, fsite, not bad and bool(f.get("impl_derived")),
-                   "clone() is %sderived and %s" % ("" if f.get("impl_derived") else "NOT ",
-                                                  "copies every leaf exactly" if not bad else "changes %s" % (bad[:3],)))
+            ctx.ob("R-IDENT", "clone-exact", cp, fsite, not bad,
+                   "clone() (%s) %s" % ("derived" if f.get("impl_derived") else "hand-written",
+                                        "copies every leaf exactly" if not bad else "changes %s" % (bad[:3],)))
         else:
             ctx.ob("R-IDENT", "clone-exact", cp, fsite, False, "clone does not return: %s" % p.status, inc=p.status == "inconclusive")
+
+
+def r_clone_from_exact(ctx, db, est, make_state, tag=""):
+    """a hand-written `clone_from(&mut dst, &src)` (the derive does not generate one) must leave dst
+    an exact copy of src and src untouched, whatever dst held before"""
+    cf = est.m("clone_from", CLONE)
+    if cf is None or cf not in db.fns:
+        return 0
+    fsite = fn_site(db, cf)
+
+    def setup(m):
+        dst = make_state(m, "dst")
+        src = make_state(m, "src")
+        want = leaf_map(deep(src.v))
+
+        def thunk():
+            call(m, cf, [VRef(dst, (), True), VRef(src, (), False)])
+            return leaf_map(dst.v), want, leaf_map(src.v)
+        return thunk, {}
+    paths, stats = explore(db, setup, Config(release=True, finite=False), 400)
+    ctx.count_run(Run(cf, paths, stats, "clone_from"))
+    n = 0
+    for p in paths:
+        pcs = pc_show(p.pc) or "unconditional"
+        if p.status == "return":
+            got, want, src_after = p.ret
+            bad = exact_state_equal(p, got, want) or exact_state_equal(p, src_after, want)
+            n += 1
+            ctx.ob("R-IDENT", "clone_from-exact" + tag, cf, fsite, not bad,
+                   "clone_from leaves an exact copy of its argument [path: %s]" % pcs if not bad else
+                   "after clone_from the target differs from its argument: %s [path: %s]" % (bad[:3], pcs))
+        elif p.status == "panic" and is_debug_only(p.info.get("span") or {}):
+            continue
+        else:
+            ctx.ob("R-IDENT", "clone_from-exact" + tag, cf, fsite, False, "clone_from: %s %s" % (p.status, p.info.get("kind") or p.info.get("why")),
+                   inc=p.status == "inconclusive")
+    return n
 
 
 def r_no_interior_mutability(ctx, db):
